@@ -63,6 +63,8 @@ class ConservationOracle(FOracle):
         self.packed_in = {}  # id(item) -> id(pallet)
         self.dead = False
         self.full_seen = False
+        self.sp_in = {}
+        self.sp_last = {}
 
     def v(self, sig, msg):
         self.res.violate(sig, msg)
@@ -105,6 +107,10 @@ class ConservationOracle(FOracle):
                     e.edge, getattr(it, "id", it), cur, e.t))
                 return
             self.loc[i] = ("sink", N) if ntype == "Sink" else ("node", N)
+            if ntype == "Splitter" and isinstance(getattr(it, "items", None), list):
+                u = len(it.items) + 1          # a pallet with n items is n+1 flow items to be emitted or dropped
+                self.sp_in[N] = self.sp_in.get(N, 0) + u
+                self.sp_last[N] = u
 
     def after_kernel_event(self, f):
         if self.dead:
@@ -169,7 +175,16 @@ class ConservationOracle(FOracle):
                 if ns["type"] == "Combiner":
                     continue    # a discarded pallet takes its packed items along: counters are per pallet
                 if ns["type"] == "Splitter":
-                    continue    # pulls pallets, pushes items: unit mismatch, covered by the place rules above
+                    # pulls pallets, emits items and pallets: count in flow items.  Everything taken in has been pushed,
+                    # counted as discarded, or belongs to the one pallet currently in work.
+                    inwork = self.sp_in.get(nid, 0) - self.pushed_by.get(nid, 0) - st_["num_item_discarded"]
+                    if inwork < 0 or inwork > self.sp_last.get(nid, 0):
+                        self.v(("equation", "Splitter"),
+                               "%s: took in %d flow items (pallets incl. content), pushed %d, counts %d as discarded: %d unaccounted, "
+                               "the pallet in work has %d (t=%s)" % (nid, self.sp_in.get(nid, 0), self.pushed_by.get(nid, 0),
+                                                                    st_["num_item_discarded"], inwork, self.sp_last.get(nid, 0), f.env.now))
+                        return
+                    continue
                 if h - st_["num_item_discarded"] < 0:
                     self.v(("equation", ns["type"]), "%s %s: pulled-pushed=%d but discarded=%d (t=%s)" % (
                         ns["type"], nid, h, st_["num_item_discarded"], f.env.now))
